@@ -37,6 +37,17 @@ from spyne.protocol.dictdoc import DictDocument
 RE_HTTP_ARRAY_INDEX = re.compile(r"\[([0-9]+)]")
 
 
+def _key_order(key):
+    """Sort key for the keys of a flat dict: the array indexes inside a key
+    compare as numbers, so that ``a[2].b`` comes before ``a[10].b``."""
+
+    parts = RE_HTTP_ARRAY_INDEX.split(key)
+    for i in range(1, len(parts), 2):
+        digits = parts[i].lstrip('0')
+        parts[i] = len(digits), digits
+    return parts
+
+
 def _s2cmi(m, nidx):
     """
     Sparse to contiguous mapping inserter.
@@ -180,7 +191,7 @@ class SimpleDictDocument(DictDocument):
         logger.debug("Simple type info key: %r", simple_type_info.keys())
 
         idxmap = defaultdict(dict)
-        for orig_k, v in sorted(doc.items(), key=lambda _k: _k[0]):
+        for orig_k, v in sorted(doc.items(), key=lambda _k: _key_order(_k[0])):
             k = RE_HTTP_ARRAY_INDEX.sub("", orig_k)
 
             member = simple_type_info.get(k, None)
